@@ -11,10 +11,12 @@ MODEL_MAX_K = 8
 MID_K = [5, 6, 7, 8]
 WIDE_K = [17, 18, 20, 23, 31, 32, 33, 40, 47, 48, 49]
 WIDE_K_THOROUGH = WIDE_K + [16, 24, 63, 64, 65]
-MODES = ["pure", "reuse", "reuse", "reusenil"]   # how the harness treats the slice it spreads into Join (join_test.go)
+MODES = ["pure", "reuse", "reuse", "reusenil", "dup", "bg"]   # how the harness treats the slice it spreads into Join (join_test.go)
 
 
-HOW = {"reuse": " (Join was called as Join(ctx, s...) and the caller then overwrote s with other channels)",
+HOW = {"dup": " (the first input was passed twice: Join(ctx, in0, in0, …))",
+       "bg": " (an unrelated Join on a still open input was alive during the run)",
+       "reuse": " (Join was called as Join(ctx, s...) and the caller then overwrote s with other channels)",
        "reusenil": " (Join was called as Join(ctx, s...) and the caller then overwrote s with nil channels)"}
 
 
@@ -104,7 +106,9 @@ def has_burst(script):
 
 
 def direct_only(script):
-    return has_burst(script) or int(ls.parse_cfg(script).get("k", 0)) > MODEL_MAX_K
+    c = ls.parse_cfg(script)
+    # mode=dup starts one copier more than the model of the script has (two share input 0)
+    return has_burst(script) or int(c.get("k", 0)) > MODEL_MAX_K or c.get("mode") == "dup"
 
 
 def flat_steps(tr):
@@ -148,6 +152,10 @@ def evaluate(script, tr):
     how = HOW.get(tr.cfg.get("mode", "pure"), "")
     for j, xs in sent.items():
         sub = [v for v in got if v in xs]
+        if tr.cfg.get("mode") == "dup" and j == 0:
+            # the same channel was passed twice: two copiers share it, the property's per-input order is about distinct
+            # inputs; only "nothing lost, duplicated or invented" and the closure are claimed for it
+            continue
         if sub != xs[:len(sub)]:
             vs.append(vlib.Violation("impl", "Join: input %d sent %s but its elements came out as %s%s" % (j, xs, sub, how), case=script, expected=xs, got=sub, key=key))
     if len(set(got)) != len(got) or any(v not in allsent for v in got):
@@ -215,7 +223,8 @@ def account(ctx, kinds, scripts, trs):
         ctx.hist("k", k)
         ctx.hist("kind", kind)
         ctx.hist("call", {"pure": "spread slice left alone", "reuse": "spread slice overwritten with foreign channels",
-                          "reusenil": "spread slice overwritten with nil"}[tr.cfg.get("mode", "pure")])
+                          "reusenil": "spread slice overwritten with nil", "dup": "first input passed twice",
+                          "bg": "another Join alive"}[tr.cfg.get("mode", "pure")])
         ctx.hist("model_compared", "no" if direct_only(s) else "yes")
         if direct_only(s):
             ctx.hist("completed_sends", sum(len(v) for v in sent.values()))
